@@ -188,17 +188,27 @@ theorem quotedValue_ok (d : Nat) (v rest : Bytes) (stk : List Bytes) (hv : quote
 /-! ### the qualifier -/
 
 /-- the domain of one qualifier under the registry: a snake-case name and a value that suits the
-name's type (anything for a toggle: the value is not written) -/
+name's type (a toggle has no value: the writer writes none) -/
 def WritableQualifier (reg : Registry) (d : Nat) (name value : Bytes) : Bool :=
   nameOk name &&
   match reg.typeOf name with
   | .literal => literalOk value
-  | .toggle => true
+  | .toggle => value.isEmpty
   | _ => quotedOk d value
 
-/-- the value that comes back: the line feed for a toggle (known finding K1D), else the value -/
+/-- the value that comes back: empty for a toggle (repo 2dd2956), else the value — on the domain
+`WritableQualifier` that is the value itself (`readValue_eq`) -/
 def readValue (reg : Registry) (name value : Bytes) : Bytes :=
-  if reg.typeOf name = .toggle then [10] else value
+  if reg.typeOf name = .toggle then [] else value
+
+theorem readValue_eq (reg : Registry) (d : Nat) (name value : Bytes)
+    (h : WritableQualifier reg d name value = true) : readValue reg name value = value := by
+  unfold readValue
+  split
+  · rename_i ht
+    simp only [WritableQualifier, ht, Bool.and_eq_true, List.isEmpty_iff] at h
+    exact h.2.symm
+  · rfl
 
 /-- the registry afterwards: an unknown name is learned as quoted -/
 def learn (reg : Registry) (name : Bytes) : Registry :=
@@ -215,7 +225,7 @@ theorem not_snake_61 : isSnake 61 = false := by decide
 theorem not_snake_10 : isSnake 10 = false := by decide
 
 /-- **Qualifier round trip.**  `QualifierParser(prefix)` on the text `QualifierIO.Format(prefix)`
-wrote, followed by a line feed: the same name, the same value (`\n` for a toggle), the rest of the
+wrote, followed by a line feed: the same name, the same value, the rest of the
 input untouched, the stack as before, and the registry only grows (an unknown name is learned as
 quoted).  `prefix` is `d` blanks (`d = 21` in a GenBank table). -/
 theorem qualifier_roundtrip (reg : Registry) (d : Nat) (name value rest : Bytes) (stk : List Bytes)
